@@ -206,7 +206,12 @@ CHECKS = {
               "assignment (sgnOf_signJ: the sign written only when it differs from the default reads "
               "back as the sign; All re-derives its value from the number of distinct children, which needs the children to "
               "stay pairwise distinct after the round trip — DistinctRT, the hypothesis that fails exactly on known finding "
-              "F16f; Xor is rebuilt from the propositions of one half); "
+              "F16f; Xor is rebuilt from the propositions of one half); fragN_roundtrip — the same fragment plus Imply and XNor "
+              "nodes (hence every model Not(...) / negate produce): from_json(to_json(t)) evaluates like t on every assignment "
+              "inside the leaf bounds; its core is nrt_node: the JSON written for the negation of a held condition (toJsonNeg, "
+              "mirroring negate's case analysis: no atoms / grouped non-negative atoms / wrapped boolean atoms / not pushed) "
+              "reads back as the complement, for nodes of any class; the configurator classes and 'keeps defaults' are tied "
+              "by correspondence + oracle only; "
               "id_written_iff — for every class an explicitly given id is written and a generated one is not. Tie: to_json "
               "(through json.dumps/loads) and from_json compared with the model for every class incl. configurators; oracle: "
               "leaves and bounds, evaluation on assignments, explicit ids kept, no id emitted for generated ones, defaults and "
